@@ -362,7 +362,7 @@ def subsets(kmax):
             yield comb
 
 
-def run_subset(acc, idx, comb, seed, sample_every):
+def run_subset(acc, idx, comb, seed, want_cat):
     rng = random.Random(seed * 1000003 + idx)
     b_orders = orders(comb, rng)
     for ti, tags in enumerate(TAGSETS):
@@ -384,7 +384,8 @@ def run_subset(acc, idx, comb, seed, sample_every):
             for b_order, t_order in pairs:
                 got, ok = judge(acc, 'direct', b_order, t_order, dst_name,
                                 exp)
-            if ok and acc.evals % sample_every < len(pairs) + 1:
+            if ok and len(comb) >= 3 and category(exp, got, dst_name) == \
+                    CATEGORIES[want_cat] and len(acc.samples) < 2:
                 acc.sample({
                     'branches': list(comb), 'tags': tags,
                     'destination': dst_name,
@@ -395,16 +396,42 @@ def run_subset(acc, idx, comb, seed, sample_every):
                     'real (last order)': list(got)})
 
 
+CATEGORIES = ('stabilization destination accepted',
+              'development destination with an ignored stabilization',
+              'hotfix destination with a version',
+              'major-only branch among the targets',
+              'ill-formed, rejected',
+              'optional rejection taken',
+              'three or more targets',
+              'tags without effect')
+
+
+def category(exp, got, dst_name):
+    if got[0] == 'raise':
+        return CATEGORIES[4] if exp['reject'] else CATEGORIES[5]
+    if dst_name.startswith('stabilization/'):
+        return CATEGORIES[0]
+    if dst_name.startswith('hotfix/'):
+        return CATEGORIES[2] if exp['versions'] else None
+    if any(n.count('.') == 0 for n in got[1]):
+        return CATEGORIES[3]
+    if any(n.startswith('stabilization/') for n in got[2]):
+        return CATEGORIES[1]
+    if len(got[1]) >= 3:
+        return CATEGORIES[6]
+    return CATEGORIES[7]
+
+
 def run_shard(spec, acc):
     tier, shard, n = spec['tier'], spec['shard'], spec['nshards']
     kmax = spec.get('kmax', KMAX[tier])
     limit = spec.get('limit')           # timing slices only
-    sample_every = 200003 if tier == 'quick' else 2000003
+    want_cat = shard % len(CATEGORIES)
     try:
         for idx, comb in enumerate(subsets(kmax)):
             if idx % n != shard:
                 continue
-            run_subset(acc, idx, comb, spec['seed'], sample_every)
+            run_subset(acc, idx, comb, spec['seed'], want_cat)
             if limit and acc.evals >= limit:
                 acc.inconc('slice limited to %d evaluations' % limit)
                 return
